@@ -129,7 +129,7 @@ EXC = {"ValueError": "ValueError", "TypeError": "TypeError", "AttributeError": "
        "MissingRequiredValue": "EMissingValue", "MissingAttribute": "EMissingAttribute", "UnsupportedAlgorithm": "EUnsupportedAlg", "InvalidRequest": "EInvalidRequest",
        "VerificationError": "EVerification", "SchemeError": "EScheme", "NotForMe": "ENotForMe",
        "IssuerMismatch": "EIssuerMismatch", "EXPError": "EExp", "IATError": "EIat", "MessageException": "EMessage",
-       "AtHashError": "EAtHash", "CHashError": "ECHash"}
+       "AtHashError": "EAtHash", "CHashError": "ECHash", "ParameterError": "EParameter"}
 
 
 def coq_res(outcome, okf):
